@@ -9,6 +9,23 @@ VERIF = os.path.dirname(os.path.dirname(os.path.abspath(__file__)))
 TECH = "deterministic simulation with fault injection"
 
 CHECKS = {
+    "C02": dict(
+        level="exploration", design="DESIGN.md §3 C02/C03",
+        technique=TECH + ": typed random programs executed unscheduled and as interleaved scheduled scripts under seeded slice lengths, per-script marker traces compared with an executable reference interpreter",
+        text="Seeded search over programs nesting if/exitWith/while/for/forEach/count/select/apply/findIf/switch/call/try-catch-throw/"
+             "scopeName-breakOut/lazy and-or. Each program runs unscheduled or as one of 1-3 scheduled scripts whose slices (length 1..13 or "
+             "drawn per slice) cut every frame behaviour at arbitrary instruction boundaries. The trace of markers (statement order and the "
+             "value of each construct) must equal the reference interpreter's; no error-level diagnostic may appear. Sampling, not proof.",
+        note="The reference interpreter (simlib/sqf.py, DESIGN.md appendix B) is the oracle and is trusted; programs are type-correct and "
+             "terminating by construction; the value of a while construct is not compared."),
+    "C03": dict(
+        level="exploration", design="DESIGN.md §3 C02/C03",
+        technique=TECH + ": typed random scoping programs under seeded interleaving with co-runners using the same names, compared with an executable reference interpreter",
+        text="Same engine as C02 with the generator weighted towards private / private _x = / params / plain assignment across nested scopes, "
+             "shadowing, reads of names whose scope has ended, code values called from other dynamic scopes, with-namespace blocks, "
+             "getVariable/setVariable, spawn (sees none of the starter's locals) and random letter case. Co-running scheduled scripts use the "
+             "same local names, so any leak between contexts or into the wrong namespace shows in the traces. Sampling, not proof.",
+        note="execVM is exercised by the C16 check (needs files); trusted: reference interpreter, generator's static typing discipline."),
     "C12": dict(
         level="exploration", design="DESIGN.md §3 C12",
         technique=TECH + ": seeded slice schedules and virtual clock over the real scheduler loop, rules R1-R7 over the recorded visit/slice/trace history",
